@@ -81,6 +81,8 @@ type YGen struct {
 
 // BuildYGen compiles ygen against /repo's working tree (with the native helper overlay).
 func (c *Ctx) BuildYGen() (*YGen, error) {
+	t0 := time.Now()
+	defer func() { vlog("BuildYGen %v", time.Since(t0).Round(time.Millisecond)) }()
 	dir := c.Scratch()
 	src, err := os.ReadFile(filepath.Join(VerifDir, "tool", "ygen", "main.go.txt"))
 	if err != nil {
@@ -107,6 +109,12 @@ func (c *Ctx) BuildYGen() (*YGen, error) {
 		return nil, fmt.Errorf("ygen does not build against the tree: %v: %s", err, tailStr(out, 1500))
 	}
 	return &YGen{Bin: bin, dir: dir}, nil
+}
+
+func vlog(format string, a ...interface{}) {
+	if os.Getenv("VERIF_VERBOSE") != "" {
+		fmt.Printf("  [phase] "+format+"\n", a...)
+	}
 }
 
 func tailStr(s string, n int) string {
